@@ -10,6 +10,7 @@ mod pure_format;
 mod pure_fat;
 mod pure_cursor;
 mod pure_io;
+mod pure_api;
 mod dev;
 mod clock;
 mod script;
@@ -78,6 +79,7 @@ fn main() {
         ("pure", "fat") => pure_fat::run(tier, seed, &mut out),
         ("pure", "cursor") => pure_cursor::run(tier, seed, &mut out),
         ("pure", "io") => pure_io::run(tier, seed, &mut out),
+        ("pure", "api") => pure_api::run(tier, seed, &mut out),
         _ => usage(),
     }
     out.flush().unwrap();
